@@ -1403,15 +1403,24 @@ impl<R: std::io::Read> Decoder<R> {
                     .ok_or(Error::ShortBlock)
             })?,
             // if total number of remaining samples isn't known,
-            // treat an EOF error as the end of stream
-            // (this is an uncommon case)
-            None => match FrameHeader::read(crc16_reader.by_ref(), self.blocks.streaminfo()) {
-                Ok(header) => header,
-                Err(Error::Io(err)) if err.kind() == std::io::ErrorKind::UnexpectedEof => {
-                    return Ok(None);
+            // treat an EOF before the first byte of a frame header
+            // as the end of stream (this is an uncommon case);
+            // an EOF any later than that is a truncated frame
+            None => {
+                let mut first = [0; 1];
+                loop {
+                    match crc16_reader.read(&mut first) {
+                        Ok(0) => return Ok(None),
+                        Ok(_) => break,
+                        Err(err) if err.kind() == std::io::ErrorKind::Interrupted => continue,
+                        Err(err) => return Err(err.into()),
+                    }
                 }
-                Err(err) => return Err(err),
-            },
+                FrameHeader::read(
+                    &mut first.as_slice().chain(crc16_reader.by_ref()),
+                    self.blocks.streaminfo(),
+                )?
+            }
         };
 
         read_subframes(
